@@ -60,6 +60,16 @@ class Sched(object):
         elif t.op == 'Q':
             r, st, l = ex.call('PriceLevel::update_order',
                                [h.lref, enum_const(UPDATE_KINDS.index('UpdateQuantity'), (p['id'], p['qty']))], st, pc)
+        elif t.op == 'N':
+            ids = []
+            l = S.TRUE
+            for _ in range(p.get('n', 2)):
+                r1, st, l1 = ex.call('UuidGenerator::next', [h.gref], st, S.And(pc, l))
+                l = S.And(l, l1)
+                if st is None:
+                    return None, None, S.FALSE
+                ids.append(r1)
+            r = tuple(ids)
         else:
             raise Unsupported('thread op ' + t.op)
         return r, st, l
